@@ -89,6 +89,9 @@ type c09Op struct {
 }
 
 func (o c09Op) String(keys []c09Key) string {
+	if o.Kind == "root" {
+		return "t = " + c09Roots[o.Key]
+	}
 	if o.Kind == "append" {
 		return fmt.Sprintf("Append(%s)", c09Vals[o.Val].name)
 	}
@@ -143,9 +146,11 @@ func newC09Worker() *c09Worker {
 	w.fnLen = load("function(t) return #t end")
 	w.fnRawset = load("function(t,k,v) rawset(t,k,v) end")
 	w.fnRawget = load("function(t,k) return rawget(t,k) end")
-	w.fnPairs = load("function(t) for k,v in pairs(t) do emit(k,v) end end")
-	w.fnNext = load("function(t) local k,v = next(t) while k ~= nil do emit(k,v) k,v = next(t,k) end end")
-	w.fnNextMut = load("function(t) local i=0 for k,v in next,t do emit(k,v) i=i+1 mut(i) end end")
+	// (every driver gives up after 1000 steps: no table of this check has that many fields, and a
+	// traversal that cycles must end as a violation, not exhaust memory)
+	w.fnPairs = load("function(t) local n=0 for k,v in pairs(t) do emit(k,v) n=n+1 if n>1000 then error('traversal does not terminate') end end end")
+	w.fnNext = load("function(t) local n=0 local k,v = next(t) while k ~= nil do emit(k,v) n=n+1 if n>1000 then error('traversal does not terminate') end k,v = next(t,k) end end")
+	w.fnNextMut = load("function(t) local i=0 for k,v in next,t do emit(k,v) i=i+1 if i>1000 then error('traversal does not terminate') end mut(i) end end")
 	w.fnIpairs = load("function(t) for i,v in ipairs(t) do emit(i,v) end end")
 	for _, k := range w.keys {
 		if k.lit == "" {
@@ -326,10 +331,33 @@ type c09Ctx struct {
 
 // replay builds the table for a history on a fresh table, tracking the model; any divergence in
 // the cheap per-transition check is reported. ok=false when a violation was found on the way.
+// c09Roots: how the table under test is created (a history may start with a "root" pseudo-operation)
+var c09Roots = []string{"L.NewTable()", "L.CreateTable(0,0)", "L.CreateTable(0,4)", "L.CreateTable(4,0)", "L.CreateTable(4,4)"}
+
+func c09NewRoot(L *lua.LState, k int) *lua.LTable {
+	switch k {
+	case 1:
+		return L.CreateTable(0, 0)
+	case 2:
+		return L.CreateTable(0, 4)
+	case 3:
+		return L.CreateTable(4, 0)
+	case 4:
+		return L.CreateTable(4, 4)
+	}
+	return L.NewTable()
+}
+
 func (c *c09Ctx) replay(w *c09Worker, hist []c09Op, checkLast bool) (*lua.LTable, c09Model, bool) {
 	tb := w.L.NewTable()
+	if len(hist) > 0 && hist[0].Kind == "root" {
+		tb = c09NewRoot(w.L, hist[0].Key)
+	}
 	m := c09Model{}
 	for i, op := range hist {
+		if op.Kind == "root" {
+			continue
+		}
 		last := checkLast && i == len(hist)-1
 		if !c.step(w, tb, m, op, hist[:i+1], last) {
 			return tb, m, false
@@ -525,9 +553,19 @@ func (w *c09Worker) traverse(tb *lua.LTable, how string) (pairs [][2]lua.LValue,
 			w.emitted = append(w.emitted, k, v)
 		}
 	case "tb.ForEach":
-		tb.ForEach(func(k, v lua.LValue) { w.emitted = append(w.emitted, k, v) })
+		tb.ForEach(func(k, v lua.LValue) {
+			if len(w.emitted) > 2000 {
+				panic("traversal does not terminate")
+			}
+			w.emitted = append(w.emitted, k, v)
+		})
 	case "L.ForEach":
-		w.L.ForEach(tb, func(k, v lua.LValue) { w.emitted = append(w.emitted, k, v) })
+		w.L.ForEach(tb, func(k, v lua.LValue) {
+			if len(w.emitted) > 2000 {
+				panic("traversal does not terminate")
+			}
+			w.emitted = append(w.emitted, k, v)
+		})
 	}
 	if err != nil {
 		return nil, err
@@ -834,7 +872,7 @@ func runC09(r *harness.Run) {
 	var states, transitions, mutRuns int64 = 0, 0, 0
 	var mu sync.Mutex
 	// explore runs one BFS over the given operation menu to the given depth and returns the deepest level completed
-	explore := func(menu []c09Op, depth int, phase string) int {
+	explore := func(menu []c09Op, depth int, phase string, roots []c09Op) int {
 		// error cases: Lua-level store under nil / NaN raises and changes nothing; checked in every state below
 		type seenShard struct {
 			mu sync.Mutex
@@ -862,6 +900,9 @@ func runC09(r *harness.Run) {
 
 		frontier := []c09State{{}}
 		addSeen("|" + c09Layout(workers[0].L.NewTable()))
+		for _, rt := range roots {
+			frontier = append(frontier, c09State{[]c09Op{rt}})
+		}
 		maxDepthDone := -1
 		for d := 0; d <= depth && len(frontier) > 0; d++ {
 			var next []c09State
@@ -908,6 +949,9 @@ func runC09(r *harness.Run) {
 							continue
 						}
 						key := m2.String() + "|" + c09Layout(tb2)
+						if h2[0].Kind == "root" {
+							key = c09Roots[h2[0].Key] + "|" + key // differently created tables are different states
+						}
 						if addSeen(key) {
 							localNext = append(localNext, c09State{h2})
 						}
@@ -931,7 +975,7 @@ func runC09(r *harness.Run) {
 		}
 		return maxDepthDone
 	}
-	maxDepthDone := explore(menu, depth, "wide")
+	maxDepthDone := explore(menu, depth, "wide", nil)
 	// second phase — narrow and deep: one key per representation (array slot, integer beyond the
 	// array part, fraction, string, boolean, table), store/erase only, two store paths, explored to
 	// twice the depth: delete-and-restore patterns with other keys stored in between, which the
@@ -959,9 +1003,21 @@ func runC09(r *harness.Run) {
 	if d := envInt("VERIF_C09_NARROW"); d > 0 {
 		narrowDepth = d
 	}
-	narrowDone := explore(narrow, narrowDepth, "narrow")
+	// the narrow phase also starts from tables created by CreateTable with every combination of
+	// empty / pre-sized array and hash parts (a constructor `{}` is CreateTable(0,0))
+	var roots []c09Op
+	for k := 1; k < len(c09Roots); k++ {
+		roots = append(roots, c09Op{Kind: "root", Key: k})
+	}
+	narrowDone := explore(narrow, narrowDepth, "narrow", nil)
+	rootDepth := 6
+	if r.Thorough() {
+		rootDepth = 9
+	}
+	explore(narrow, rootDepth, "narrow-roots", roots)
 	r.Extra["narrow_phase_menu_size"] = len(narrow)
 	r.Extra["narrow_phase_max_depth_completed"] = narrowDone
+	c09Bulk(c, workers[0])
 	r.Extra["states"] = states
 	r.Extra["transitions"] = transitions
 	r.Extra["traces_validated_against_impl"] = transitions
@@ -1028,6 +1084,157 @@ func (c *c09Ctx) errorStores(w *c09Worker, tb *lua.LTable, m c09Model, hist []c0
 			}
 			if err != nil || got != lua.LNil {
 				c.viol("badkey-read/"+via+"/"+bk.name, fmt.Sprintf("read under %s through %s: value %v err %v (expected nil)", bk.name, via, got, err), hist)
+			}
+		}
+	}
+}
+
+// c09Bulk — tables with many hash fields (sizes around powers of two, up to 300 string, fractional
+// and boolean/table keys), traversed while existing fields are cleared (which Lua allows): clear
+// every visited field, clear every second one, clear the fields in reverse insertion order while
+// standing on the first, clear-all then refill then traverse, delete half then traverse. Every
+// field that is present when the traversal reaches it is visited exactly once, none twice, and
+// the table ends with exactly the fields that were not cleared.
+func c09Bulk(c *c09Ctx, w *c09Worker) {
+	r := c.r
+	L := w.L
+	drivers := []string{"next-loop", "pairs", "tb.Next"}
+	for _, n := range []int{1, 2, 7, 8, 9, 31, 32, 33, 63, 64, 65, 100, 127, 128, 129, 300} {
+		for _, kind := range []string{"string", "fraction", "mixed"} {
+			for _, scenario := range []string{"clear-visited", "clear-every-second", "clear-all-at-first", "clear-refill-traverse", "delete-half-traverse", "clear-ahead"} {
+				for _, drv := range drivers {
+					mkKey := func(i int) lua.LValue {
+						switch {
+						case kind == "string" || kind == "mixed" && i%3 == 0:
+							return lua.LString(fmt.Sprintf("k%d", i))
+						case kind == "fraction" || kind == "mixed" && i%3 == 1:
+							return lua.LNumber(float64(i) + 0.5)
+						default:
+							return lua.LNumber(float64(-i))
+						}
+					}
+					tb := L.NewTable()
+					present := map[lua.LValue]bool{}
+					for i := 1; i <= n; i++ {
+						tb.RawSet(mkKey(i), lua.LNumber(i))
+						present[mkKey(i)] = true
+					}
+					switch scenario {
+					case "clear-refill-traverse":
+						for i := 1; i <= n; i++ {
+							tb.RawSet(mkKey(i), lua.LNil)
+						}
+						for i := n; i >= 1; i-- {
+							tb.RawSet(mkKey(i), lua.LNumber(i))
+						}
+					case "delete-half-traverse":
+						for i := 1; i <= n; i += 2 {
+							tb.RawSet(mkKey(i), lua.LNil)
+							delete(present, mkKey(i))
+						}
+					}
+					visits := map[lua.LValue]int{}
+					var order []lua.LValue
+					step := 0
+					problem := ""
+					visit := func(k, v lua.LValue) {
+						step++
+						if step > 4*n+10 {
+							panic("traversal does not terminate")
+						}
+						if !present[k] {
+							problem = fmt.Sprintf("key %v visited although it is not in the table at that time", k)
+						}
+						visits[k]++
+						order = append(order, k)
+						switch scenario {
+						case "clear-visited":
+							tb.RawSet(k, lua.LNil)
+							delete(present, k)
+						case "clear-every-second":
+							if step%2 == 0 {
+								tb.RawSet(k, lua.LNil)
+								delete(present, k)
+							}
+						case "clear-all-at-first":
+							if step == 1 {
+								for i := n; i >= 1; i-- {
+									if mkKey(i) != k {
+										tb.RawSet(mkKey(i), lua.LNil)
+										delete(present, mkKey(i))
+									}
+								}
+							}
+						case "clear-ahead":
+							// clear a field that has not been visited yet (three insertion positions ahead)
+							for i := 1; i <= n; i++ {
+								if mkKey(i) == k && i+3 <= n && present[mkKey(i+3)] && visits[mkKey(i+3)] == 0 {
+									tb.RawSet(mkKey(i+3), lua.LNil)
+									delete(present, mkKey(i+3))
+								}
+							}
+						}
+					}
+					wasPresent := map[lua.LValue]bool{}
+					for k := range present {
+						wasPresent[k] = true
+					}
+					func() {
+						defer func() {
+							if rec := recover(); rec != nil {
+								problem = fmt.Sprintf("%v", rec)
+							}
+						}()
+						switch drv {
+						case "tb.Next":
+							k, v := tb.Next(lua.LNil)
+							for k != lua.LNil {
+								visit(k, v)
+								k, v = tb.Next(k)
+							}
+						default:
+							L.SetGlobal("visit", L.NewFunction(func(L *lua.LState) int { visit(L.Get(1), L.Get(2)); return 0 }))
+							src := "local t = ... for k, v in pairs(t) do visit(k, v) end"
+							if drv == "next-loop" {
+								src = "local t = ... local k, v = next(t) while k ~= nil do visit(k, v) k, v = next(t, k) end"
+							}
+							fn, err := L.LoadString(src)
+							if err != nil {
+								panic(err)
+							}
+							L.Push(fn)
+							L.Push(tb)
+							if err := L.PCall(1, 0, nil); err != nil {
+								problem = "traversal raised: " + err.Error()
+							}
+						}
+					}()
+					sig := fmt.Sprintf("bulk/%s/%s/%s", scenario, kind, drv)
+					r.Eval(fmt.Sprintf("%s/n=%d", sig, n), true, func() interface{} {
+						return map[string]interface{}{"case": "bulk traversal with clears", "fields": n, "keys": kind, "scenario": scenario, "driver": drv}
+					})
+					if problem == "" {
+						for k := range wasPresent {
+							switch {
+							case visits[k] > 1:
+								problem = fmt.Sprintf("key %v visited %d times", k, visits[k])
+							case visits[k] == 0 && present[k]:
+								problem = fmt.Sprintf("key %v is still in the table but was never visited", k)
+							}
+						}
+					}
+					if problem == "" {
+						// what is left is exactly what was not cleared
+						left := 0
+						tb.ForEach(func(k, v lua.LValue) { left++ })
+						if left != len(present) {
+							problem = fmt.Sprintf("%d fields left in the table, expected %d", left, len(present))
+						}
+					}
+					if problem != "" {
+						r.Violation(sig, fmt.Sprintf("table with %d %s hash fields, scenario %s, driver %s: %s", n, kind, scenario, drv, problem), map[string]interface{}{"fields": n, "keys": kind, "scenario": scenario, "driver": drv})
+					}
+				}
 			}
 		}
 	}
